@@ -27,16 +27,24 @@ import numpy as np
 
 from ..contracts import attach, detach_all, quiet
 from ..refmodels import index_int as ii
+from ..util import precision
 
 RULE = ('every index from the first one up to the end of the first complete block past J is evaluated (J = 1e5 quick, '
-        '2e6 thorough; blocks = radial orders / Fringe groups / XY degrees, dealt round-robin to the shards); a case is '
-        'one block swept with one index type (python int; numpy.int64 for the first 150 blocks and every 7th after), '
-        'one radial order n of the (n,m)->j sweep, or one isolated large-index probe; `evaluations` counts the '
-        'individual indices evaluated inside the blocks, `distinct_nontrivial` counts distinct case descriptors (a '
-        'lower bound on distinct inputs: per-index counts are in monitor_evaluations); every index is non-trivial')
+        '4e6 thorough; blocks = radial orders / Fringe groups / XY degrees, dealt round-robin to the shards); a case is '
+        'one block swept with one index type (python int; numpy.int64 for the first 150 blocks and every 7th after; '
+        'numpy.int32 / intp / int16 for early blocks whose arithmetic fits the container; every 5th early block once more '
+        'under config.precision = 32 — the maps must be exact integers in either configuration), one radial order n of the '
+        '(n,m)->j sweep, one isolated large-index probe, one per-map call-order sequence (descending, boundary hops, random) '
+        'or one INTERLEAVED sequence over the four maps and the two inverses (same index through all maps, round trips '
+        'through the inverses between forward calls, block-boundary hops alternating between maps, random mixes, the '
+        'configuration switched 64 -> 32 -> 64 inside the sequence, the same numpy index object re-used); `evaluations` '
+        'counts the individual indices evaluated inside the blocks, `distinct_nontrivial` counts distinct case descriptors '
+        '(a lower bound on distinct inputs: per-index counts are in monitor_evaluations); every index is non-trivial')
 ASSUMPTIONS = ['the integer-only reference maps are the conventions (they reproduce the published first terms and are '
                'proved mutual inverses / complete by enumeration at start-up; Python int arithmetic and math.isqrt are exact)',
-               'indices are Python int or numpy.int64 values; other numeric types are outside the workload',
+               'indices are Python int or signed numpy integers (int64, intp, int32, int16 where 8 j + 1 fits the container); '
+               'unsigned and floating-point index types are outside the workload (the published formulas need signed '
+               'intermediate values)',
                'isolated probes above 2^31-1 are explored but never decide (float64 sqrt frontier is outside the stated quantifier)']
 REQUIRED = ['noll_to_nm.valid-order', 'fringe_to_nm.valid-order', 'ansi_j_to_nm.valid-order', 'xy_j_to_mn.valid-order',
             'noll.block-rule', 'ansi.block-rule', 'fringe.block-rule', 'xy.block-rule',
@@ -44,7 +52,9 @@ REQUIRED = ['noll_to_nm.valid-order', 'fringe_to_nm.valid-order', 'ansi_j_to_nm.
             'noll.parity-rule', 'ansi.formula', 'fringe.formula', 'xy.order-rule', 'ansi.inverse', 'fringe.inverse',
             'noll.eq-integer-reference', 'ansi.eq-integer-reference', 'fringe.eq-integer-reference', 'xy.eq-integer-reference',
             'nm_to_fringe.eq-integer-reference', 'nm_to_ansi_j.eq-integer-reference', 'nm_to_fringe.inverse', 'nm_to_ansi_j.inverse',
-            'probe.noll', 'probe.ansi', 'probe.fringe', 'probe.xy']
+            'probe.noll', 'probe.ansi', 'probe.fringe', 'probe.xy',
+            'order.noll', 'order.ansi', 'order.fringe', 'order.xy', 'interleaved.forward', 'interleaved.inverse',
+            'precision32.sweep', 'narrow-int.sweep']
 
 CTX = None
 _INVALID = [False]     # set by a contract when the call just made returned an invalid image
@@ -100,6 +110,12 @@ def _post_inverse(fn, first):
             CTX.violation(f'C11/{fn}/invalid-index', f'{fn}(n, m) is not an integer index >= {first}',
                           {'fn': fn, 'nm': [int(a) for a in args[:2]], 'class': 'contract'}, got=repr(result))
     return post
+
+
+def install_monitors(ctx):
+    global CTX
+    CTX = ctx
+    install()
 
 
 def install():
@@ -222,7 +238,7 @@ def _nblocks(T, J):
 
 def _run(ctx):
     tables = _tables()
-    J = ctx.pick(100_000, 2_000_000)
+    J = ctx.pick(100_000, 4_000_000)
     swept = {}
 
     # --- 1. exhaustive block sweeps of the forward maps -------------------------------------------------
@@ -234,32 +250,48 @@ def _run(ctx):
             if not ctx.mine(b):
                 continue
             lo, hi = T['block'](b)
-            types = [('int', int)]
+            types = [('int', int, 64)]
             if b < 150 or b % 7 == 0:
-                types.append(('int64', np.int64))
-            for tname, jtype in types:
-                desc = {'wl': 'sweep', 'map': name, 'block': b, 'j': [lo, hi], 'type': tname, 'class': f'sweep:{name}:{tname}'}
+                types.append(('int64', np.int64, 64))
+            if b < 150 and b % 3 == 1:
+                types.append(('int32', np.int32, 64))          # 8 j + 1 < 2^31 for every index of these blocks
+            if b < 150 and b % 3 == 2:
+                types.append(('intp', np.intp, 64))
+            if 8 * hi + 16 < 2 ** 15 and b % 2 == 0:
+                types.append(('int16', np.int16, 64))
+            if b < 200 and b % 5 == 3 or (b % 97 == 0):
+                types.append(('int', int, 32))                 # the same block under config.precision = 32
+                types.append(('int64', np.int64, 32))
+            for tname, jtype, prec in types:
+                sfx = '' if prec == 64 else '/precision32'
+                desc = {'wl': 'sweep', 'map': name, 'block': b, 'j': [lo, hi], 'type': tname, 'precision': prec,
+                        'class': f'sweep:{name}:{tname}' + ('' if prec == 64 else ':p32')}
                 ctx.case(desc)
                 ctx.evaluations += hi - lo      # the case stands for hi-lo+1 evaluated indices
+                if prec == 32:
+                    ctx.observe('precision32.sweep')
+                if tname in ('int32', 'intp', 'int16'):
+                    ctx.observe('narrow-int.sweep')
                 seen = {}
                 prev = None
                 clean = True
-                for j in range(lo, hi + 1):
-                    im = _eval(ctx, name, T, j, jtype(j), '', desc)
-                    if im is None:
-                        clean = False
-                        prev = None
-                        continue
-                    ok = _check_index(ctx, name, T, j, jtype(j), im, prev, b, '', desc, jtype)
-                    clean = clean and ok
-                    ctx.observe(f'{name}.injective-onto-block')
-                    if im in seen:
-                        clean = False
-                        ctx.violation(f'C11/{fn}/duplicate-image', f'{fn} is not one-to-one: two indices have the same image',
-                                      desc, j=j, other=seen[im], image=list(im))
-                    else:
-                        seen[im] = j
-                    prev = im
+                with precision(prec):
+                    for j in range(lo, hi + 1):
+                        im = _eval(ctx, name, T, j, jtype(j), sfx, desc)
+                        if im is None:
+                            clean = False
+                            prev = None
+                            continue
+                        ok = _check_index(ctx, name, T, j, jtype(j), im, prev, b, sfx, desc, jtype)
+                        clean = clean and ok
+                        ctx.observe(f'{name}.injective-onto-block')
+                        if im in seen:
+                            clean = False
+                            ctx.violation(f'C11/{fn}/duplicate-image', f'{fn} is not one-to-one: two indices have the same image',
+                                          desc, j=j, other=seen[im], image=list(im))
+                        else:
+                            seen[im] = j
+                        prev = im
                 # surjectivity onto the complete block (reported on its own only when nothing else explains it)
                 missing = T['target'](b) - set(seen)
                 if missing and clean:
@@ -269,7 +301,7 @@ def _run(ctx):
 
     # --- 2. (n, m) -> j -> (n, m) for every valid order up to N ----------------------------------------------
     from prysm import polynomials as P
-    N = ctx.pick(600, 1500)
+    N = ctx.pick(600, 2500)
     for n in range(N + 1):
         if not ctx.mine(n):
             continue
@@ -310,7 +342,7 @@ def _run(ctx):
     # --- 3. isolated large-index probes (deciding up to 2^31 - 1) -------------------------------------------
     rng = ctx.rng('c11-probes')
     JMAX = 2 ** 31 - 1
-    nprobe = ctx.share(ctx.pick(2000, 200_000))
+    nprobe = ctx.share(ctx.pick(2000, 400_000))
     slow_budget = {'noll': ctx.pick(40, 400), 'xy': ctx.pick(40, 400)}   # O(sqrt j) per call: bounded number of big ones
     names = list(tables)
     for i in range(nprobe):
@@ -339,14 +371,18 @@ def _run(ctx):
         ctx.case(desc)
         ctx.observe(f'probe.{name}')
         seen = {}
+        pprec = 32 if i % 8 >= 6 else 64          # a quarter of the probes under config.precision = 32 (exactness is demanded all the same)
+        desc['precision'] = pprec
+        psfx = '/probe' if pprec == 64 else '/probe/precision32'
         for j in (j0 - 1, j0, j0 + 1, j0 + 2):
-            im = _eval(ctx, name, T, j, j, '/probe', desc)
-            if im is None:
-                continue
-            b = T['blk_of'](T['ref'](j))
-            _check_index(ctx, name, T, j, j, im, None, b, '/probe', desc, int)
+            with precision(pprec):
+                im = _eval(ctx, name, T, j, j, psfx, desc)
+                if im is None:
+                    continue
+                b = T['blk_of'](T['ref'](j))
+                _check_index(ctx, name, T, j, j, im, None, b, psfx, desc, int)
             if im in seen:
-                ctx.violation(f'C11/{T["fn"]}/duplicate-image/probe', f'{T["fn"]} is not one-to-one on neighbouring large indices',
+                ctx.violation(f'C11/{T["fn"]}/duplicate-image{psfx}', f'{T["fn"]} is not one-to-one on neighbouring large indices',
                               desc, j=j, other=seen[im], image=list(im))
             seen[im] = j
 
@@ -392,6 +428,9 @@ def _run(ctx):
                                   desc, j=j, previous_call=prev_j, got=list(im), want=list(want))
                 prev_j = j
 
+    # --- 3c. interleaving the four maps and the two inverses ------------------------------------------------------
+    interleaved(ctx, tables, P)
+
     # documented rejection (out of domain, counted): xy_j_to_mn(j < 1) raises ValueError
     if ctx.shard == 0:
         with quiet():
@@ -434,7 +473,141 @@ def _run(ctx):
                 ctx.event(f'float-frontier-mismatch:{name}', bad)
         ctx.note('float_sqrt_frontier_exploration_non_deciding', out)
 
+    _merge_suffix(ctx, '/precision32')
     ctx.exhaustive = True
+
+
+def _merge_suffix(ctx, sfx):
+    """A key `k + sfx` whose plain form `k` was also observed in this process is the same defect (it does not depend on
+    the configuration): fold it into the plain key."""
+    for k in [k for k in ctx.violations if sfx in k]:
+        plain = k.replace(sfx, '', 1)
+        if plain in ctx.violations:
+            v = ctx.violations.pop(k)
+            ctx.violations[plain]['count'] += v['count']
+
+
+FWD_FIRST = {'noll': 1, 'ansi': 0, 'fringe': 1, 'xy': 1}
+
+
+def interleaved(ctx, tables, P):
+    """Class B: histories that interleave noll_to_nm, ansi_j_to_nm, fringe_to_nm, xy_j_to_mn, nm_to_fringe and nm_to_ansi_j.
+    Every single result is compared with the integer reference; a failure is keyed by the function that returned it and
+    the function called immediately before it (state shared between two maps shows up as exactly that pair)."""
+    names = list(tables)
+    inverses = {'nm_to_fringe': (P.nm_to_fringe, ii.nm_to_fringe), 'nm_to_ansi_j': (P.nm_to_ansi_j, ii.nm_to_ansi)}
+    rng = ctx.rng('c11-interleaved')
+    nseq = ctx.pick(48, 1600)
+    length = ctx.pick(400, 1500)
+    kinds = ['same-index-all-maps', 'roundtrip-between-forwards', 'boundary-hops-alternating', 'random-mix', 'precision-switch',
+             'descending-alternating', 'same-object-reused', 'big-then-small']
+    for q in range(nseq):
+        if not ctx.mine(q):
+            continue
+        kind = kinds[q % len(kinds)]
+        g = np.random.default_rng(ctx.subseed(rng))
+        ops = []          # (function label, args, precision)
+        top = int(10 ** g.uniform(2, 5.3))
+
+        def fwd_all(j, prec=64, order=None):
+            for nm in (order or names):
+                ops.append((nm, (max(j, FWD_FIRST[nm]),), prec))
+        if kind == 'same-index-all-maps':
+            for _ in range(length // 4):
+                fwd_all(int(g.integers(1, top)), order=[names[i] for i in g.permutation(4)])
+        elif kind == 'roundtrip-between-forwards':
+            for _ in range(length // 4):
+                j = int(g.integers(1, top))
+                nm = names[int(g.integers(4))]
+                ops.append((nm, (max(j, FWD_FIRST[nm]),), 64))
+                n, m = ii.fringe_to_nm(max(1, j)) if g.random() < 0.5 else ii.ansi_to_nm(j)
+                inv = 'nm_to_fringe' if g.random() < 0.5 else 'nm_to_ansi_j'
+                ops.append((inv, (n, m), 64))
+                nm2 = names[int(g.integers(4))]
+                ops.append((nm2, (max(j + int(g.integers(-2, 3)), FWD_FIRST[nm2]),), 64))
+                ops.append(('nm_to_ansi_j' if inv == 'nm_to_fringe' else 'nm_to_fringe', (n, -m if g.random() < 0.5 else m), 64))
+        elif kind == 'boundary-hops-alternating':
+            for _ in range(length // 6):
+                k = int(g.integers(2, int((2 * top) ** 0.5) + 3))
+                base = k * (k + 1) // 2 if g.random() < 0.5 else k * k
+                a, b = [names[i] for i in g.permutation(4)[:2]]
+                for nm, j in ((a, base + k), (b, base), (a, base), (b, base - 1), (a, base + 1), (b, base + 2 * k + 1)):
+                    ops.append((nm, (max(j, FWD_FIRST[nm]),), 64))
+        elif kind == 'random-mix':
+            for _ in range(length):
+                if g.random() < 0.25:
+                    n = int(g.integers(0, 400))
+                    m = int(g.integers(0, n // 2 + 1)) * 2 + n % 2
+                    m = min(m, n) * (1 if g.random() < 0.5 else -1)
+                    if (n - abs(m)) % 2:
+                        m = n
+                    ops.append((['nm_to_fringe', 'nm_to_ansi_j'][int(g.integers(2))], (n, m), 64))
+                else:
+                    nm = names[int(g.integers(4))]
+                    ops.append((nm, (int(g.integers(FWD_FIRST[nm], top)),), 64))
+        elif kind == 'precision-switch':
+            for _ in range(length // 12):
+                j = int(g.integers(1, top))
+                fwd_all(j, 32)
+                fwd_all(j, 64)
+                fwd_all(j + 1, 32 if g.random() < 0.5 else 64, order=[names[i] for i in g.permutation(4)])
+        elif kind == 'descending-alternating':
+            j = top
+            while j > max(1, top - length // 2):
+                a, b = names[j % 4], names[(j + 1 + j // 4) % 4]
+                ops.append((a, (max(j, FWD_FIRST[a]),), 64))
+                ops.append((b, (max(j - 1, FWD_FIRST[b]),), 64))
+                j -= 1
+        elif kind == 'same-object-reused':
+            for _ in range(length // 8):
+                obj = np.int64(int(g.integers(1, top)))          # ONE numpy index object through every map, twice
+                for nm in names + names[::-1]:
+                    ops.append((nm, (obj,), 64))
+        else:  # big-then-small: a large index (tables / memos grow), then small ones in every map
+            for _ in range(length // 9):
+                big = int(g.integers(top, 40 * top + 2))
+                nm = names[int(g.integers(4))]
+                ops.append((nm, (big,), 64))
+                j = int(g.integers(1, 60))
+                fwd_all(j)
+                fwd_all(big - 1, order=[names[int(g.integers(4))]])
+        desc = {'wl': 'interleaved', 'kind': kind, 'seq': q, 'n_calls': len(ops), 'first': [[o[0], [int(a) for a in o[1]]] for o in ops[:6]],
+                'class': f'interleaved:{kind}'}
+        ctx.case(desc)
+        ctx.evaluations += len(ops) - 1
+        prev = None
+        cur_prec = 64
+        for fnl, args, prec in ops:
+            with precision(prec):
+                if fnl in inverses:
+                    f, ref = inverses[fnl]
+                    fname = fnl
+                    ctx.observe('interleaved.inverse')
+                    want = ref(*[int(a) for a in args])
+                else:
+                    T = tables[fnl]
+                    f, fname = T['fwd'], T['fn']
+                    ctx.observe('interleaved.forward')
+                    want = tuple(T['ref'](int(args[0])))
+                _INVALID[0] = False
+                try:
+                    res = f(*args)
+                    got = _as_int(res) if fnl in inverses else (_as_int(res[0]), _as_int(res[1]))
+                except Exception as e:
+                    ctx.violation(f'C11/{fname}/call-order/interleaved/raises:{type(e).__name__}', f'{fname} raises inside an interleaved sequence of '
+                                  'index-map calls', desc, args=[int(a) for a in args], previous_call=prev)
+                    prev = [fname, [int(a) for a in args]]
+                    continue
+            if got != want and not _INVALID[0]:
+                after = prev[0] if prev else 'nothing'
+                sw = '/precision-switched' if prec != cur_prec else ''
+                ctx.violation(f'C11/{fname}/call-order/interleaved/after-{after}{sw}', f'{fname} returns a wrong order / index inside an interleaved '
+                              f'sequence (immediately after {after})', desc, args=[int(a) for a in args], previous_call=prev,
+                              got=list(got) if isinstance(got, tuple) else got, want=list(want) if isinstance(want, tuple) else want,
+                              precision=prec)
+            prev = [fname, [int(a) for a in args]]
+            cur_prec = prec
+    ctx.note('interleaved', f'{nseq} interleaved sequences of ~{length} calls over the four forward maps and the two inverses ({len(kinds)} kinds)')
 
 
 def replay(ctx, rec):
